@@ -115,4 +115,28 @@ def run(out, tier, seed):
         if sum(1 for e in h if e["op"] != "bind") >= 1 and h[0]["op"] == "bind":
             jobs.append({"cfg": {"nss": ["urn:a/x/b", "urn:a/x/"], "iris": ["urn:a/x/b1x"], "prefixes": ["a", "c"], "store": "Memory", "bind_namespaces": "none"},
                          "events": [dict(e) for e in h]})
+    # directed: an answer is remembered by one kind of call, the prefix is then removed or re-pointed (through this manager, through a second
+    # manager of the same store, by a parse), and every kind of call is asked again - with and without generate
+    reads = [{"op": "cq", "generate": True}, {"op": "cq", "generate": False}, {"op": "qname"}, {"op": "curie", "generate": True}, {"op": "curie", "generate": False}, {"op": "n3"}, {"op": "cq_strict"}]
+    rebinds = [[{"op": "bind", "p": "a", "n": "urn:b#", "override": True, "replace": True, "via": "second"}], [{"op": "bind", "p": "a", "n": "urn:b#", "override": True, "replace": True, "via": "self"}],
+               [{"op": "bind", "p": "c", "n": "urn:a/", "override": True, "replace": True, "via": "second"}], [{"op": "parse", "prefixes": [["a", "urn:b#"]], "via": "second", "fmt": "turtle"}],
+               [{"op": "bind", "p": "a", "n": "urn:a/x/", "override": True, "replace": True, "via": "second"}, {"op": "bind", "p": "a", "n": "urn:b#", "override": True, "replace": True, "via": "second"}]]
+    for r1 in reads:
+        for rb in rebinds:
+            for r2 in reads:
+                for iri in ("urn:a/foo", "urn:a/x/bar"):
+                    h = [{"op": "bind", "p": "a", "n": "urn:a/", "override": True, "replace": False, "via": "self"}, dict(r1, iri=iri)] + [dict(e) for e in rb] + [dict(r2, iri=iri), dict(r2, iri="urn:b#q")]
+                    jobs.append({"cfg": {"nss": NSS_R, "iris": IRIS_R, "prefixes": ["", "a", "b", "c", "d"], "store": "Memory", "bind_namespaces": "none"}, "events": h})
+    # sibling namespaces under one parent whose tails occur inside other local names (obo-style: .../obo/ with .../obo/TO_ and .../obo/VO_ bound as well)
+    OBO = "http://ex.example/obo/"
+    sib = [OBO, OBO + "TO_", OBO + "VO_", OBO + "PATO_0"]
+    siris = [OBO + "PATO_0000001", OBO + "ENVO_0000002", OBO + "TO_0000003", OBO + "XTO_4", OBO + "VO_", OBO + "aVO_b"]
+    for i in range(60 if quick else 600):
+        evs = [{"op": "bind", "p": "obo", "n": OBO, "override": True, "replace": False, "via": "self"}, {"op": "bind", "p": "TO", "n": OBO + "TO_", "override": True, "replace": False, "via": "self"},
+               {"op": "bind", "p": "VO", "n": OBO + "VO_", "override": True, "replace": False, "via": "self"}]
+        rng.shuffle(evs)
+        for _ in range(6):
+            rd = dict(rng.choice(reads), iri=rng.choice(siris))
+            evs.append(rd)
+        jobs.append({"cfg": {"nss": sib, "iris": siris, "prefixes": ["obo", "TO", "VO"], "store": "Memory", "bind_namespaces": "none"}, "events": evs})
     out.conform(__name__, TRACE, jobs, nontrivial=nontrivial, chunk=1500)
